@@ -198,7 +198,12 @@ def gen_refresh(rng):
             ops.append(dict(op="inject", k=k, on="update", nth=rng.randint(1, 3),
                             do=rng.choice(["upsert", "delete", "reinsert", "status2", "status2"])))
         elif r < 0.8:
-            ops.append(dict(op="user", kind=rng.choice(["upsert", "delete", "reinsert", "status2"]), k=k))
+            if rng.random() < 0.5:
+                ops.append(dict(op="user", kind=rng.choice(["upsert", "delete", "reinsert", "status2"]), k=k))
+            else:
+                # a user write committed at the moment the refresh loop asks for the table lock, i.e. after
+                # whatever it decided before holding the lock
+                ops.append(dict(op="injectrefresh", k=k, do=rng.choice(["upsert", "delete", "reinsert", "status2"])))
         elif r < 0.9:
             ops.append(dict(op="wait", back=rng.randint(0, 2), q=False))
         else:
